@@ -151,6 +151,54 @@ def run(ctx):
                 init0 = True
         ctx.ob("CHK", "init", init0, "checksum accumulator starts at 0", cb.file, cb.line)
 
+    # ---- SLOTPOS: the reader's position -> slot-type table is the inverse of the discriminant cast the writer indexes by
+    from ..table import Table, Undecided, enum_variants, leaf_variant
+
+    tb = prog.body("<gearsets::GearSlotType as std::convert::TryFrom<usize>>::try_from")
+    slots = enum_variants(prog, "gearsets::GearSlotType")
+    if not tb or not slots:
+        ctx.fail_closed("SLOTPOS", "TryFrom<usize> for GearSlotType / GearSlotType not found")
+    else:
+        t = Table(tb)
+        if not t.is_table:
+            ctx.fail_closed("SLOTPOS", "TryFrom<usize> for GearSlotType is not a loop-free decision table over its argument")
+        else:
+            n_pos = 0
+            for name, dv in slots + [("<out of range>", max(d_ for _n, d_ in slots) + 1)]:
+                try:
+                    leaf = t.lookup({("val", 1): dv}).env.local(0)
+                except Undecided as e:
+                    ctx.fail_closed("SLOTPOS", f"try_from({dv}): {e}")
+                    continue
+                n_pos += 1
+                if name.startswith("<"):
+                    ok = isinstance(leaf, tuple) and leaf[0] == "agg" and leaf[2].endswith("Result::Err")
+                    ctx.ob("SLOTPOS", "out-of-range", ok, f"position {dv} (past the last slot) maps to {show(leaf)}; must be Err", tb.file, tb.line, trivial=True)
+                else:
+                    got = leaf_variant(leaf[3][0]) if isinstance(leaf, tuple) and leaf[0] == "agg" and leaf[2].endswith("Result::Ok") else None
+                    ctx.ob("SLOTPOS", f"position|{dv}", got == name, f"reader maps table position {dv} to {got}; the writer stores {name} at position {dv} (its discriminant)", tb.file, tb.line, sample=(dv == 8))
+            ctx.floor("SLOTPOS", "slot positions", n_pos, 15)
+    wsb = prog.body("gearsets::convert_to_slots")
+    if not wsb:
+        ctx.fail_closed("SLOTPOS", "gearsets::convert_to_slots not found")
+    else:
+        from ..prov import derive, index_of
+
+        ix = index_of(wsb)
+        ok = False
+        for _bi, t_ in wsb.calls():
+            if (t_.get("res") or "").endswith("IndexMut<I>>::index_mut") and len(t_["args"]) == 2:
+                d_ = derive(ix, t_["args"][1])
+                # index = discriminant(key) as usize : no arithmetic, no table lookup
+                from ..mir import op_place as _opl
+
+                r = ix.resolve(t_["args"][1])
+                if r[0] == "cast":
+                    inner = ix.resolve(r[1]["a"])
+                    if inner[0] == "rv" and inner[1]["k"] == "discr" and inner[1]["p"]["ty"] == "gearsets::GearSlotType":
+                        ok = not d_.ops
+        ctx.ob("SLOTPOS", "writer-indexes-by-discriminant", ok, "convert_to_slots stores each slot at position `slot_type as usize`", wsb.file, wsb.line)
+
     # ---- XOR on both paths
     for fn in ("gearsets::GearSets::from_existing", "gearsets::GearSets::write_to_buffer"):
         b = prog.body(fn)
